@@ -301,6 +301,9 @@ pub fn write_float_nonscientific<const FORMAT: u128>(
     }
 
     let digits = &buffer[start..start + digit_count];
+    // NOTE: leading zeros, as in `0.00121`, are not significant digits,
+    // however, a zero has 1 significant digit.
+    let zero_count = ltrim_char_count(digits, b'0').min(digit_count - 1);
 
     // Write the integer component.
     let integer_length = initial_cursor - start;
@@ -348,7 +351,7 @@ pub fn write_float_nonscientific<const FORMAT: u128>(
     }
 
     // Determine if we need to add more trailing zeros.
-    let exact_count = shared::min_exact_digits(digit_count, options);
+    let exact_count = shared::min_exact_digits(digit_count - zero_count, options) + zero_count;
 
     // Write any trailing digits to the output.
     // Won't panic since bytes cannot be empty.
